@@ -222,6 +222,19 @@ theorem ctl_prefix_nicira (U : Unpack Msg) (N : Nat → Option (Unpack Msg)) (ms
       (tl = [] ∨ ∃ e m rem' y, rem = (e, m) :: rem' ∧ e = tl ++ y ∧ y ≠ []) :=
   ctl_prefix _ ms chunks rest (fun p hp => (hwf p hp).wf) hseg
 
+/-- **ctl_segmentation_independent_nicira**: segmentation independence with `openflow.nicira` loaded (the OFPT_VENDOR
+table entry replaced): two segmentations of the same prefix of a well-formed stream leave the same state. -/
+theorem ctl_segmentation_independent_nicira (U : Unpack Msg) (N : Nat → Option (Unpack Msg)) (ms : List (Bytes × Msg))
+    (c1 c2 : List Bytes) (rest : Bytes) (hwf : ∀ p ∈ ms, NxWF U N p.1 p.2)
+    (hseg : c1.flatten ++ rest = (ms.map (·.1)).flatten) (hsame : c2.flatten = c1.flatten) :
+    (c1.foldl (ctlFeed (replaceEntry U 4 (nxVendor U N)) 8) init).delivered
+      = (c2.foldl (ctlFeed (replaceEntry U 4 (nxVendor U N)) 8) init).delivered ∧
+    (c1.foldl (ctlFeed (replaceEntry U 4 (nxVendor U N)) 8) init).buf
+      = (c2.foldl (ctlFeed (replaceEntry U 4 (nxVendor U N)) 8) init).buf ∧
+    (c1.foldl (ctlFeed (replaceEntry U 4 (nxVendor U N)) 8) init).st
+      = (c2.foldl (ctlFeed (replaceEntry U 4 (nxVendor U N)) 8) init).st :=
+  ctl_segmentation_independent _ ms c1 c2 rest (fun p hp => (hwf p hp).wf) hseg hsame
+
 /-- non-vacuity: a bare 12-byte message of another vendor, a bare 16-byte Nicira header and a HELLO are `NxWF` for the
     slice decoder; one message per read (nothing behind the 12-byte message when it is decoded) delivers all three. -/
 def vendor12 : Bytes := [1, 4, 0, 12, 0, 0, 0, 6, 0, 0x5c, 0x16, 0xc7]
